@@ -19,6 +19,8 @@
 (*               same text as in the baseline); unchanged before the slot  *)
 (*   Covers      (baseline, the diagnostic the template is about) the      *)
 (*               range contains one of the marked tokens/constructs        *)
+(*   Balanced    (baseline, same diagnostic, not for stray-token kinds)    *)
+(*               the text under the range has balanced brackets            *)
 (* Same number of diagnostics and same messages as the baseline.           *)
 (***************************************************************************)
 EXTENDS Integers, Sequences, FiniteSets, TLC, Json, IOUtils
@@ -35,6 +37,19 @@ Templates == <<
    st |-> <<T("let y: "), M("int"), T(" = "), M("\"no\""), T("\n")>>],
   [n |-> "binop",        msg |-> "Operands must have the same type",
    st |-> <<T("let y = 1 "), M("+"), T(" true\n")>>],
+  \* a parenthesised operand at the edge of the offending binary expression (the parentheses are not part of the operand's node)
+  [n |-> "binop-paren-left", msg |-> "Operands must have the same type",
+   st |-> <<T("let y = (1 + 2) "), M("*"), T(" \"s\"\n")>>],
+  [n |-> "binop-paren-right", msg |-> "Operands must have the same type",
+   st |-> <<T("let y = \"s\" "), M("*"), T(" (1 + 2)\n")>>],
+  [n |-> "binop-paren-both", msg |-> "Operands must have the same type",
+   st |-> <<T("let y = (1) "), M("+"), T(" (true)\n")>>],
+  [n |-> "binop-paren-nested", msg |-> "Operands must have the same type",
+   st |-> <<T("let y = ((1 + 2) * (3 + 4)) "), M("+"), T(" (true)\n")>>],
+  [n |-> "and-paren-left", msg |-> "Operand must be `bool`",
+   st |-> <<T("let v = (1 + 2) "), M("and"), T(" true\n")>>],
+  [n |-> "and-paren-right", msg |-> "Operand must be `bool`",
+   st |-> <<T("let v = true "), M("and"), T(" (1 + 2)\n")>>],
   [n |-> "argtype",      msg |-> "Wrong argument type",
    st |-> <<T("fn f(a: int) { a }\n"), M("f(\"x\")"), T("\n")>>],
   [n |-> "argconflict",  msg |-> "Conflicting types",
@@ -176,6 +191,18 @@ CharOff(ps, v, x, isEnd) ==
 
 PrefixOf(p, s) == Len(s) >= Len(p) /\ SubSeq(s, 1, Len(p)) = p
 Covers(ps, d) == \E m \in Marks(ps) : d.start <= m[1] /\ m[2] <= d.end
+\* the range of a diagnostic about a construct (not about a stray token) is a whole construct: the text under it has balanced
+\* brackets - a range that starts inside a parenthesised operand and ends outside it denotes nothing
+RECURSIVE BaseText(_, _)
+BaseText(ps, i) == IF i > Len(ps) THEN "" ELSE ps[i].s \o BaseText(ps, i + 1)
+RECURSIVE Depths(_, _, _, _)       \* FALSE if the depth drops below zero or does not end at zero
+Depths(s, i, e, d) ==
+  IF i > e THEN d = 0
+  ELSE LET ch == SubSeq(s, i, i)
+           d2 == IF ch \in {"(", "[", "{"} THEN d + 1 ELSE IF ch \in {")", "]", "}"} THEN d - 1 ELSE d
+       IN d2 >= 0 /\ Depths(s, i + 1, e, d2)
+TokenTemplates == {"syntax", "syntax-eof", "unrecognized-char", "escape"}      \* these are about a single (possibly stray) token
+Balanced(ps, d) == d.start < 0 \/ d.end > BaseLen(ps) \/ d.start > d.end \/ Depths(BaseText(ps, 1), d.start + 1, d.end, 0)
 
 \* the clauses violated by diagnostic number j of observation o ([t, c, f, v, diags, base] ; base = baseline diags)
 Violations(o, j) ==
@@ -187,7 +214,8 @@ Violations(o, j) ==
   IN (IF 0 <= d.start /\ d.start <= d.end /\ d.end <= len THEN {} ELSE {"InFile"}) \cup
      (IF OnBoundary(ps, o.v, d.start) /\ OnBoundary(ps, o.v, d.end) THEN {} ELSE {"OnBoundary"}) \cup
      (IF d.start = ShiftOff(ps, o.v, d0.start, FALSE) /\ d.end = ShiftOff(ps, o.v, d0.end, TRUE) THEN {} ELSE {"Shift"}) \cup
-     (IF o.v = 1 /\ about /\ ~Covers(ps, d) THEN {"Covers"} ELSE {})
+     (IF o.v = 1 /\ about /\ ~Covers(ps, d) THEN {"Covers"} ELSE {}) \cup
+     (IF o.v = 1 /\ about /\ Templates[o.t].n \notin TokenTemplates /\ ~Balanced(ps, d) THEN {"Balanced"} ELSE {})
 
 CountsChars(o, j) ==
   LET ps == Pieces(o.t, o.c, o.f) IN
@@ -199,7 +227,7 @@ SameMessages(o) == Len(o.diags) = Len(o.base) /\ \A j \in 1..Len(o.diags) : o.di
 Triggered(o) == \E j \in 1..Len(o.base) : PrefixOf(Templates[o.t].msg, o.base[j].msg)
 
 ClauseStr(S) == (IF "InFile" \in S THEN "+InFile" ELSE "") \o (IF "OnBoundary" \in S THEN "+OnBoundary" ELSE "") \o
-                (IF "Shift" \in S THEN "+Shift" ELSE "") \o (IF "Covers" \in S THEN "+Covers" ELSE "")
+                (IF "Shift" \in S THEN "+Shift" ELSE "") \o (IF "Covers" \in S THEN "+Covers" ELSE "") \o (IF "Balanced" \in S THEN "+Balanced" ELSE "")
 
 \* what the ASCII baseline of the same input already violates for diagnostic j (Shift holds trivially there)
 BaseViolations(o, j) == Violations([o EXCEPT !.v = 1, !.diags = o.base], j)
